@@ -92,7 +92,6 @@ class Check(DiffCheck):
             'sub-file / stripe boundary, or runs past end of file')
     assumptions = ['underlay files are well behaved (no short I/O other than at EOF, no errors)',
                    'requests starting at/after EOF are outside the property (modelled and compared, not judged by the oracle)',
-                   'align_memory with alignment < sizeof(void*): posix_memalign refuses the alignment (class memalign)',
                    'offsets/lengths in the correspondence run are < 4096 (the model uses unary nat for list positions)']
     partial_note = ('proved: aligned adaptor (pread/pwrite/preadv/pwritev, every alignment 2^k, all requests aligned, operation sequences); '
                     'NOT proved: linear_refines / stripe_refines (statement kept as C16_Proofs.linear_refines_stmt) — the composites and '
@@ -155,7 +154,7 @@ class Check(DiffCheck):
                                 cs.append('A %d %d %s %s' % (A, am, base, self._op(rng, kd, off, n, mises)))
         aligned_sweep(4, 0, [0, 1, 3, 4, 5, 8, 10, 12, 13] + ([2, 7, 9, 16, 17] if thorough else []), [0], 12, ['R', 'W', 'RV', 'WV'])
         aligned_sweep(8, 1, [0, 5, 8, 13, 16, 24, 27] + ([1, 7, 9, 17, 32] if thorough else []), [0, 4] + ([1, 8] if thorough else []), 24 if thorough else 17, ['R', 'W', 'RV', 'WV'])
-        aligned_sweep(4, 1, [5], [0], 5, ['R', 'W', 'RV', 'WV'])              # class memalign (known)
+        aligned_sweep(4, 1, [5, 8], [0, 2], 9, ['R', 'W', 'RV', 'WV'])         # alignment < sizeof(void*): finding F30 (fixed)
         aligned_sweep(8, 0, [0, 7, 8, 20], [0, 3], 17, ['R', 'W'])
         aligned_sweep(1, 1, [0, 3], [0, 1], 4, ['R', 'W', 'RV', 'WV'])
         aligned_sweep(2, 0, [0, 3, 4], [1], 5, ['R', 'W', 'RV', 'WV'])
@@ -283,7 +282,6 @@ class Check(DiffCheck):
 
     def known_class(self, case):
         c = Case(case)
-        if c.kind == 'A' and c.am and 0 < c.p < 8: return 'memalign'
         if c.precondition(): return 'precondition'
         return None
 
